@@ -51,9 +51,13 @@ type Tap struct {
 	// RemFaults: remove-call index -> "na": the data plane refuses the removal (the rule stays installed)
 	RemFaults map[int]string
 	nRem      int
-	Delay     func(c *DPCall) // optional latency inside the call (a real suspension point)
-	Quiet     bool            // do not keep the call log (stress runs)
-	NCalls    int64
+	// KernelRefuse, when set (real driver over the simulated kernel), makes the kernel refuse the removal instead of
+	// short-cutting the driver call: the driver runs as it would against a refusing gtp5g (what it does before the
+	// netlink request - e.g. unregistering a periodic URR - still happens)
+	KernelRefuse func(kind string, on bool)
+	Delay        func(c *DPCall) // optional latency inside the call (a real suspension point)
+	Quiet        bool            // do not keep the call log (stress runs)
+	NCalls       int64
 }
 
 var ErrInjected = fmt.Errorf("injected data-plane failure")
@@ -83,10 +87,21 @@ func (t *Tap) do(op, kind string, seid uint64, id uint64, idok bool, faultable b
 	if t.Delay != nil {
 		t.Delay(&c)
 	}
-	switch mode {
-	case "na":
+	viaKernel := false
+	if mode == "na" && op == "Remove" && t.KernelRefuse != nil {
+		viaKernel = true
+		t.KernelRefuse(kind, true)
+		n, err = call()
+		t.KernelRefuse(kind, false)
+		if err == nil {
+			mode = "" // nothing was refused (the driver did not get as far as the kernel)
+		}
+	}
+	switch {
+	case viaKernel:
+	case mode == "na":
 		err = ErrInjected
-	case "ap":
+	case mode == "ap":
 		n, _ = call()
 		n = 0
 		err = ErrInjected
